@@ -452,7 +452,7 @@ def replay_parse_dict(r):
             return {"reproduced": True, "detail": f"parse_dict({key} = {val!r}) raised {type(e).__name__}: {e}"}
         if got != want:
             return {"reproduced": True, "detail": f"halmos.toml `{key} = {val!r}` gives {got!r}; `--{key} 500` on the command line gives {want!r}", "inputs": [key, repr(val)]}
-    for key, val in (("trace-events", ["BOGUS"]), ("array-lengths", ["x=oops"])):
+    for key, val in (("trace-events", ["BOGUS"]), ("array-lengths", ["x=oops"]), ("early-exit", "false"), ("loop", "abc"), ("loop", 2.5), ("storage-layout", "weird")):
         try:
             got = TomlParser().parse_dict({"global": {key: val}})
             return {"reproduced": True, "detail": f"malformed `{key} = {val!r}` accepted as {got!r}"}
@@ -520,9 +520,12 @@ class _RecordingAction:
 
 
 class _GhostField:
-    def __init__(self, name, action=None):
+    def __init__(self, name, action=None, type_=str, choices=None):
         self.name = name
+        self.type = type_
         self.metadata = {"action": action} if action is not None else {}
+        if choices:
+            self.metadata["choices"] = choices
 
 
 def parse_dict_cases():
@@ -538,15 +541,22 @@ def parse_dict_cases():
         def harness(interp, value=value):
             ctx = interp.ctx
             log = []
-            flds = [_GhostField("with_action", _RecordingAction("with_action", log)), _GhostField("plain"), _GhostField("other_action", _RecordingAction("other_action", log))]
+            flds = [_GhostField("with_action", _RecordingAction("with_action", log)), _GhostField("plain_str", type_=str), _GhostField("plain_int", type_=int), _GhostField("plain_bool", type_=bool), _GhostField("plain_choice", type_=str, choices=["1,2", "b"]), _GhostField("other_action", _RecordingAction("other_action", log))]
             interp.externals[dataclasses.fields] = lambda i, c: flds
             interp.externals[hcfg.fields] = lambda i, c: flds
             fn = hcfg.TomlParser.__dict__["parse_dict"]
-            r = interp.call(fn, [hcfg.TomlParser(), {"global": {"with-action": value, "plain": value}}], {})
-            ctx.oblige("result-has-exactly-the-given-keys (dashes normalised)", z3.BoolVal(isinstance(r, dict) and sorted(r) == ["plain", "with_action"]), info={"got": str(r)[:120]})
-            if isinstance(r, dict) and "with_action" in r and "plain" in r:
+            r = interp.call(fn, [hcfg.TomlParser(), {"global": {"with-action": value}}], {})
+            ctx.oblige("result-has-exactly-the-given-keys (dashes normalised)", z3.BoolVal(isinstance(r, dict) and sorted(r) == ["with_action"]), info={"got": str(r)[:120]})
+            if isinstance(r, dict) and "with_action" in r:
                 ctx.oblige("structured-option-value-goes-through-its-parser (validated, same meaning as on the command line)", z3.BoolVal(r["with_action"] == ("parsed", "with_action", value) and log == [("with_action", value)]), info={"got": str(r["with_action"])[:80]})
-                ctx.oblige("plain-option-value-is-kept-unchanged", z3.BoolVal(r["plain"] is value))
+            # plain options: a value of the option's own type (and among its choices) is kept as it is, anything else is refused
+            for fname, t, choices in (("plain_str", str, None), ("plain_int", int, None), ("plain_bool", bool, None), ("plain_choice", str, ["1,2", "b"])):
+                fits = type(value) is t and (choices is None or value in choices)
+                try:
+                    r2 = interp.call(fn, [hcfg.TomlParser(), {"global": {fname.replace("_", "-"): value}}], {})
+                    ctx.oblige(f"plain option of type {t.__name__}{' with choices' if choices else ''}: a fitting value is kept unchanged, a malformed one is rejected (not passed on)", z3.BoolVal(fits and isinstance(r2, dict) and list(r2) == [fname] and r2[fname] is value), info={"value": repr(value), "got": str(r2)[:80]})
+                except (ValueError, TypeError):
+                    ctx.oblige(f"plain option of type {t.__name__}{' with choices' if choices else ''}: a fitting value is kept unchanged, a malformed one is rejected (not passed on)", z3.BoolVal(not fits), info={"value": repr(value), "rejected": True})
 
         out.append(Case(f"{PROP}/config.TomlParser.parse_dict", f"value kind {kname}", harness, replay=replay_parse_dict, sources=("halmos.config:TomlParser.parse_dict",)))
 
